@@ -224,7 +224,9 @@ impl<'de> Deserialize<'de> for LuaSyntaxId {
 #[derive(Debug, Clone, Copy, PartialEq, Eq, Hash)]
 pub struct LuaAstPtr<T: LuaAstNode> {
     pub syntax_id: LuaSyntaxId,
-    _phantom: PhantomData<T>,
+    // `fn() -> T` instead of `T`: the pointer stores no `T`, so it is `Send + Sync` whatever
+    // `T` is, and the compiler derives that without an `unsafe impl`.
+    _phantom: PhantomData<fn() -> T>,
 }
 
 impl<T: LuaAstNode> LuaAstPtr<T> {
@@ -249,5 +251,3 @@ impl<T: LuaAstNode> LuaAstPtr<T> {
     }
 }
 
-unsafe impl<T: LuaAstNode> Send for LuaAstPtr<T> {}
-unsafe impl<T: LuaAstNode> Sync for LuaAstPtr<T> {}
